@@ -117,10 +117,10 @@ _opt_cache = {}
 
 
 def OptSort(sort):
-    key = sort.name() if not z3.is_array_sort(sort) else str(sort)
+    key = str(sort) if sort.kind() in (z3.Z3_ARRAY_SORT, z3.Z3_SEQ_SORT) else sort.name()
     if key in _opt_cache:
         return _opt_cache[key]
-    d = z3.Datatype('Opt_' + key.replace(' ', '_').replace('(', '_').replace(')', '_'))
+    d = z3.Datatype('Opt_' + ''.join(ch if ch.isalnum() else '_' for ch in key))
     d.declare('none')
     d.declare('some', ('val', sort))
     d = d.create()
@@ -151,6 +151,10 @@ class Ty:
 
     def __hash__(self):
         return hash((self.kind, self.args))
+
+    def osort(self):
+        """Option sort of a map's values (the created datatype object, with accessors)"""
+        return OptSort(self.args[1].sort())
 
     def sort(self):
         if self._sort is None:
